@@ -224,9 +224,14 @@ LoadStatus DepsLog::Load(const string& path, State* state, string* err) {
       deps_data += 3;
       int deps_count = (size / 4) - 3;
 
+      if (out_id < 0 || out_id >= (int)nodes_.size()) {
+        read_failed = true;
+        break;
+      }
       for (int i = 0; i < deps_count; ++i) {
         int node_id = deps_data[i];
-        if (node_id >= (int)nodes_.size() || !nodes_[node_id]) {
+        if (node_id < 0 || node_id >= (int)nodes_.size() ||
+            !nodes_[node_id]) {
           read_failed = true;
           break;
         }
